@@ -38,7 +38,7 @@ def model_type(em, name, nn):
     if nn == 'vector<void*>' or nn.startswith('vector<void*,'):
         em.lowerings['M-vec(type)'] += 1
         return 'struct M_vec_voidp'
-    if nn.startswith('map<basic_string<char>,void*') or nn.startswith('map<string,void*'):
+    if (nn.startswith('map<basic_string<char>,void*') or nn.startswith('map<string,void*')) and not em.opts.get('map_str_keys'):
         em.lowerings['M-map(type)'] += 1
         return 'struct M_map_str_voidp'
     if re.match(r'^__normal_iterator<void\*(const)?\*,vector<void\*', nn) or re.match(r'^vector<void\*(,.*)?>::(const_)?iterator$', nn):
@@ -168,6 +168,19 @@ def map_struct(em, key, name):
     """M-map: std::map<K, void*> as a total array view (present[k], val[k]) over the whole key space.
     8/16-bit keys: real arrays; wider keys: CBMC unbounded arrays (__CPROVER_constant_infinity_uint)."""
     kt = em.resolve(T.parse(key))
+    if kt[0] == 'c' and kt[1] == 'struct M_string':
+        # string keys: the key's content is abstracted to an 8-bit name id by the stub vstd_str_id (equal content <=> equal id
+        # is the stub's contract); the map is then the array view over name ids
+        if not em.opts.get('map_str_keys'):
+            return 'M_map_str_voidp'
+        cn = 'M_map_strk_voidp'
+        if cn not in em.struct_defs:
+            em.struct_defs[cn] = ('struct %s { _Bool present[256]; void *val[256]; }; /* M-map view of std::map<std::string, void*> over 8-bit name ids */\n'
+                                  'struct M_mapit_strk_voidp { struct %s *m; long idx; }; /* iterator: idx == -1 is end() */' % (cn, cn))
+            em.rec_order.append(cn)
+            em.used_records[cn] = ('model', name or 'std::map<std::string, void *>')
+        em.lowerings['M-map(type, string keys as name ids)'] += 1
+        return cn
     if kt[0] != 'c' or kt[1] not in MAP_KEY_BITS:
         raise ExtractError('map with unmodelled key type %r' % (kt,))
     tag = re.sub(r'[^A-Za-z0-9]', '_', kt[1])
@@ -189,6 +202,10 @@ def map_struct(em, key, name):
         em.used_records[cn] = ('model', name or ('std::map<%s, void *>' % key))
     em.lowerings['M-map(type)'] += 1
     return cn
+
+
+def _kidx(mcn, k):
+    return 'vstd_str_id(%s)' % k if mcn == 'M_map_strk_voidp' else k
 
 
 def _is_map(em, e):
@@ -268,7 +285,7 @@ def operator_call(em, n, rd, args):
         em.lowerings['M-vec(operator[])'] += 1
         return '((%s).elem[%s])' % (em.E(args[0]), em.E(args[1]))
     if rd.get('name') == 'operator[]' and len(args) == 2 and _is_map(em, args[0]):
-        m_, k_ = em.E(args[0]), em.E(args[1])
+        m_, k_ = em.E(args[0]), _kidx(_is_map(em, args[0]), em.E(args[1]))
         em.lowerings['M-map(operator[])'] += 1
         return ('(*((%s).present[%s] ? &(%s).val[%s] : ((%s).val[%s] = (void *)0, (%s).present[%s] = 1, &(%s).val[%s])))'
                 % (m_, k_, m_, k_, m_, k_, m_, k_, m_, k_))
@@ -313,6 +330,8 @@ def member_call(em, n, callee, obj, args, rd):
             return '(%s)' % o
         if nm == 'release' and not args:
             return '(%s)' % o
+        if nm == 'operator bool' and not args:
+            return '((_Bool)((%s) != 0))' % o
         raise ExtractError('unmodelled unique_ptr member ' + str(nm))
     if _is_vec(em, obj):
         em.lowerings['M-vec(%s)' % nm] += 1
@@ -349,7 +368,7 @@ def member_call(em, n, callee, obj, args, rd):
         it = mcn.replace('M_map_', 'M_mapit_', 1)
         em.lowerings['M-map(%s)' % nm] += 1
         if nm == 'find' and len(args) == 1:
-            k_ = em.E(args[0])
+            k_ = _kidx(mcn, em.E(args[0]))
             return '((struct %s){ &(%s), (%s).present[%s] ? (long)(%s) : -1L })' % (it, o, o, k_, k_)
         if nm == 'end' and not args:
             return '((struct %s){ &(%s), -1L })' % (it, o)
@@ -417,7 +436,8 @@ def _param_stub(em, e):
             break
         c = inner(c)[0]
     if c.get('kind') == 'DeclRefExpr' and c['referencedDecl'].get('kind') == 'ParmVarDecl':
-        return stubs.get(c['referencedDecl'].get('name'))
+        # '*': every call through a callable *parameter* (names of parameters are not part of the interface)
+        return stubs.get(c['referencedDecl'].get('name')) or stubs.get('*')
     return None
 
 
@@ -432,8 +452,9 @@ def indirect_call(em, n, callee_e, args):
             if c.get('kind') == 'UnaryOperator' and c.get('opcode') != '*':
                 break
             c = inner(c)[0]
-        if c.get('kind') == 'DeclRefExpr' and c['referencedDecl'].get('name') in stubs:
-            stub = stubs[c['referencedDecl']['name']]
+        if c.get('kind') == 'DeclRefExpr' and (c['referencedDecl'].get('name') in stubs or ('*' in stubs and c['referencedDecl'].get('kind') == 'VarDecl')):
+            # '*': every call through a *local* function-pointer variable (local names are not part of the interface)
+            stub = stubs.get(c['referencedDecl']['name']) or stubs['*']
             ft = T.parse(qt(callee_e))
             while ft[0] in ('p', 'ref'):
                 ft = ft[1]
